@@ -43,7 +43,7 @@ PROPS = {
         level_text="Theorems: calc_error of odometry edges is the compact form of (p0^-1 (+) p1)^-1 (+) z (matrix form proved for SE(3)); landmark error is ((p0 (+) off)^-1 . l) - z; "
         "calc_chi2 = e^T Omega e; graph chi2 (model of graph.py:364) = sum of edge chi2; chi2>=0 for PSD Omega, =0 iff e=0 for PD Omega, linear in Omega; "
         "error = 0 iff measurement agrees (SE(3): equal translation and q_z = +-q_delta; SE(2): equal position, angle congruent mod 2pi).",
-        level_note="Trusted: Lean kernel, Mathlib, translator (validated every run), chi2 harness (bit-exact comparison of the sum). Graph.calc_chi2 is a hand model (one line) tied by correspondence.",
+        level_note="Trusted: Lean kernel, Mathlib, translator (validated every run), chi2 harness (bit-exact comparison of the sum). Graph.calc_chi2 is a hand model (one line) tied by correspondence. Regenerated tie: the decision expressions / statement skeleton of graph.py and base_edge.py are re-translated every run (tools/translate/py2lean_graph.py -> Generated/GraphPy.lean) and Props/Tie/GraphPy.lean proves that the hand models use exactly them.",
     ),
     "C03": dict(
         modules=["GraphSlam.Props.C03"],
@@ -69,7 +69,7 @@ PROPS = {
         "no key with a>b exists; the gradient dictionary and chi2 are plain sums; for symmetric Omega and distinct vertices one edge contributes exactly the (a,b) block of Jbar^T Omega Jbar and the a block of Jbar^T Omega e (ordered-pair sum), "
         "with a proved counterexample for self-loop edges; the dense fill is proved block by block (assignment is justified by disjoint index ranges; prefix-sum layouts are proved to be layouts), giving assembled_hessian / assembled_gradient: "
         "H[g_u+s,g_w+t] = sum_e sum_{x,y in e}[g_x=g_u, g_y=g_w](J_x^T Omega J_y)[s,t] and b likewise for free vertices, identity/zero for fixed ones.",
-        level_note="Hand models (Model/Assembly.lean, Model/GraphIter.lean) tied by tools/harness/assembly.py (stage-wise) and tools/harness/graphiter.py (whole iteration on typed graphs, generated formulas inside the model); spsolve is a parameter. "
+        level_note="Hand models (Model/Assembly.lean, Model/GraphIter.lean) tied by tools/harness/assembly.py (stage-wise) and tools/harness/graphiter.py (whole iteration on typed graphs, generated formulas inside the model); spsolve is a parameter.  Regenerated tie: the decision expressions / statement skeleton of graph.py and base_edge.py are re-translated every run (tools/translate/py2lean_graph.py -> Generated/GraphPy.lean) and Props/Tie/GraphPy.lean proves that the hand models use exactly them."
         "Props/E2E/Step.lean instantiates the assembly theorems on the typed model: system_hessian / system_gradient (H and b of Model.system are the block sums over the typed edges' own generated errors and Jacobians; gradient indices of the constructor form a layout).",
     ),
     "C04": dict(
@@ -99,7 +99,7 @@ PROPS = {
         "(d) gradient_after_step / second_step_zero / chi2Seq_const: after one exact step b vanishes, every later step is zero, the chi2 sequence is constant from index 1; "
         "(e) optimize_linear_optimum(_R2/_R3): for any exact solver, max_iter>=1, any tol/eps/flags/initial guess the call returns the state after one Gauss-Newton step, final_chi2 is its true chi2, that state is the global and unique minimiser among all states agreeing on the fixed vertices, converged=True for max_iter>=2, tol>0, and num_iterations<=2. "
         "Also kept: the affine-residual lemmas, connected_fixed_pd, the constant-tail report lemmas.",
-        level_note="The former gap (stacked J-bar of C03 = the J of the theory, 'by shared definitions') is closed: the theorems are about Model.system / step / optimizeSolve themselves. Solver exactness is a hypothesis (existence of a solution is proved); real arithmetic. End-to-end behaviour is additionally explored against numpy lstsq every run.",
+        level_note="The former gap (stacked J-bar of C03 = the J of the theory, 'by shared definitions') is closed: the theorems are about Model.system / step / optimizeSolve themselves. Solver exactness is a hypothesis (existence of a solution is proved); real arithmetic. End-to-end behaviour is additionally explored against numpy lstsq every run. Regenerated tie: the decision expressions / statement skeleton of graph.py and base_edge.py are re-translated every run (tools/translate/py2lean_graph.py -> Generated/GraphPy.lean) and Props/Tie/GraphPy.lean proves that the hand models use exactly them.",
     ),
     "C05": dict(
         modules=["GraphSlam.Props.C05"],
@@ -121,7 +121,7 @@ PROPS = {
         technique="Lean 4 proof of the stationarity/fixed-point/descent facts (Mathlib calculus + matrix theory); convergence explored within a calibrated neighbourhood",
         level_text="Proved: chi2 along a differentiable residual has gradient 2b with b=J^T Omega r (the assembled vector); with PD reduced Hessian the step is zero iff the free gradient vanishes; zero residual => chi2=0, b=0, zero step; the step is a descent direction of the quadratic model; "
         "converged=True certifies non-increase and relative decrease < tol at the reported index. PARTIAL: convergence from a neighbourhood is explored (calibrated bounds), not proved.",
-        level_note="Partial by design (DESIGN.md C05).",
+        level_note="Partial by design (DESIGN.md C05). Regenerated tie: the decision expressions / statement skeleton of graph.py and base_edge.py are re-translated every run (tools/translate/py2lean_graph.py -> Generated/GraphPy.lean) and Props/Tie/GraphPy.lean proves that the hand models use exactly them.",
     ),
     "C06": dict(
         modules=["GraphSlam.Props.C06"],
@@ -140,7 +140,7 @@ PROPS = {
         "free vertices get pose [+] dx[g:g+c]; fix_first_pose sets exactly the first flag; the fixed index set is exactly the indices of flagged vertices. "
         "The assembled H has identity diagonal blocks and zero off-diagonal blocks for every fixed vertex (touched by an edge or not) and b is zero there (fixed_diagonal_identity, fixed_column_zero, assembled_gradient), "
         "so the equations of the free rows involve no fixed unknown: the free block solves the reduced problem and fixing a vertex never makes H singular by itself.",
-        level_note="Hand model tied by tools/harness/assembly.py and the direct search; the code was repaired first (known_findings.json: fixed C06 4d1b12c).",
+        level_note="Hand model tied by tools/harness/assembly.py and the direct search; the code was repaired first (known_findings.json: fixed C06 4d1b12c). Regenerated tie: the decision expressions / statement skeleton of graph.py and base_edge.py are re-translated every run (tools/translate/py2lean_graph.py -> Generated/GraphPy.lean) and Props/Tie/GraphPy.lean proves that the hand models use exactly them.",
     ),
     "C12": dict(
         modules=["GraphSlam.Props.C12"],
@@ -158,7 +158,7 @@ PROPS = {
         technique="Lean 4 proof: loop invariant by induction for a line-by-line model of the optimize loop, closed form of the report; tied by exact correspondence",
         level_text="Proved for every chi2 sequence, tol, eps, max_iter>=1 and ANY scalar type (so also Float with NaN): closed form of the whole report; the run ends at the first i in 1..max_iter-1 where chi2 did not increase and the relative decrease is < tol, else at max_iter; "
         "converged <-> the test holds at the end index; num_iterations, initial_chi2=c 0, final_chi2=c(end), len(iteration_results), iteration_results[j].chi2=c(j+1); max_iter=0 raises IndexError; over R: tol=0 and chi2>=0 never stops early; split runs consume the same chi2 sequence.",
-        level_note="State-level 'no hidden state / verbose has no effect' is checked on the real code by the search every run (bitwise pose comparison), not proved.",
+        level_note="State-level 'no hidden state / verbose has no effect' is checked on the real code by the search every run (bitwise pose comparison), not proved. Regenerated tie: the decision expressions / statement skeleton of graph.py and base_edge.py are re-translated every run (tools/translate/py2lean_graph.py -> Generated/GraphPy.lean) and Props/Tie/GraphPy.lean proves that the hand models use exactly them.",
     ),
     "C15": dict(
         modules=["GraphSlam.Props.C15"],
@@ -180,7 +180,7 @@ PROPS = {
         technique="Lean 4 proof: frame conditions of hand models (perturb/restore loop of _calc_jacobian, update loop) for all histories; numpy aliasing observed by a bitwise trace check",
         level_text="Proved on an explicit OBJECT-IDENTITY model (Model/Heap.lean: a growing heap of arrays, vertices and edges hold object ids, any aliasing allowed; Props/C15/Heap*.lean) for ALL histories of operations: (1) append-only - every operation except normalize() (the one in-place operation of the library) and the caller's own writes leaves every pre-existing object bit-identical, no call re-binds an edge attribute or changes an id / gradient index, fixed flags change only in optimize, to applyFixFirst; (2) queries leave the world unchanged except heap growth and are deterministic; the numerical-differentiation loop re-binds only the differentiated vertex, to a new object with the same content; (3) optimize: a fixed vertex keeps the same object, every free vertex gets its own NEW object holding old [+] dx-slice, pairwise distinct - two vertices (or a vertex and a measurement) that shared one object are not double-updated and the shared object keeps its entries; (4) copies are independent; (5) refinement: reading the world through its references gives exactly Model.numJacobian / Model.applyDx / Model.Run.iterStates. Also (value level): the numerical-differentiation loop returns the store exactly as it found it for every pose type (copy p = p discharged for the generated copy of R2/R3/SE3, and SE2 in range), for any error function and any number of vertices; "
         "optimize preserves the vertex layout and every fixed pose for any solver behaviour and iteration count; operators are functions of their operands in the model. PARTIAL: aliasing/in-place behaviour of numpy objects is checked by the trace harness only.",
-        level_note="Partial by nature: the property is largely about runtime object behaviour; the logic part is proved, the rest explored on every run.",
+        level_note="Partial by nature: the property is largely about runtime object behaviour; the logic part is proved, the rest explored on every run. Regenerated tie: the decision expressions / statement skeleton of graph.py and base_edge.py are re-translated every run (tools/translate/py2lean_graph.py -> Generated/GraphPy.lean) and Props/Tie/GraphPy.lean proves that the hand models use exactly them.",
     ),
     "C16": dict(
         modules=["GraphSlam.Props.C16"],
@@ -200,7 +200,7 @@ PROPS = {
         technique="Lean 4 proof: loop induction for the model of _calc_jacobian; mean-value inequality (Mathlib) for the forward-difference error bound; tied by bit-exact correspondence",
         level_text="Proved (Props/C16/*.lean): (a) fd_exact_of_affine / numJacobian_of_affine - a forward difference of an affine error is EXACT for any eps != 0; for the generated R^2/R^3 odometry and landmark errors (and the landmark vertex of SE(2)/SE(3) landmark edges) the numerically differentiated Jacobian IS the generated calc_jacobians_*; (b) custom_assembly_exact, numSystem_eq, numStep_eq, numOptimizeSolve_eq, num_optimize_linear_optimum_R2/_R3 - n-ary edges with affine errors give literally the same EdgeLin records, hence the same chi2, b, H, the same iteration and the same WHOLE CALL, which (C04) reaches the unique global minimiser: the second clause of C16 holds exactly for affine errors; (c) gradContrib_perturb, hessContrib_perturb, dense_gradient_perturb, dense_hessian_perturb, numSystem_perturb - Jacobians entrywise within delta give b, H within explicit polynomial bounds; (d) stationary_points_agree_coarse, numSystem_stationary - the numerical and the analytic iteration have the same stationary points up to C*delta; numLin_jacClose_of_C2 gives delta = M*eps; graph_SE2_perturb / graph_SE2_stationary discharge the C^2 hypothesis from the generated SE(2) code (explicit M). Also: for any error function over any number of vertices of any pose types, the model of _calc_jacobian returns shape err.shape+(dim,) with column d = (err(p [+] eps e_d) - err(p))/eps and restores the store; "
         "a forward difference of a C^2 function with |f''|<=M on [0,eps] is within M*eps of the derivative, hence each entry is within M*1e-6 of the true box-plus derivative. PARTIAL: the convergence clause is explored (twin graphs), not proved.",
-        level_note="Hand model tied by tools/harness/numjac.py (bitwise).",
+        level_note="Hand model tied by tools/harness/numjac.py (bitwise). Regenerated tie: the decision expressions / statement skeleton of graph.py and base_edge.py are re-translated every run (tools/translate/py2lean_graph.py -> Generated/GraphPy.lean) and Props/Tie/GraphPy.lean proves that the hand models use exactly them.",
     ),
     "C07": dict(
         modules=["GraphSlam.Props.C07"],
@@ -222,7 +222,7 @@ PROPS = {
         "trajectory_frame_SE2 / _SE3 / _R2 / _R3 - for ANY solver and ANY number of iterations the k-iteration state of the transformed graph is T applied to the k-iteration state of the original (SE(2)/SE(3) graphs whose vertices are all poses; R^2/R^3 graphs with every edge class); "
         "and optimize_frame_SE2 / _SE3 / _R2 / _R3 on the model of a WHOLE optimize() call (Model.optimizeSolve, tied by tools/harness/fullrun.py): same report (every chi2, stopping index, converged), same flags, and the returned state is T applied to the returned state of the original. "
         "Graphs MIXING SE(n) pose vertices with R^n landmark vertices (Props/E2E/FrameMixed/*.lean, for SE(2)+R^2 and SE(3)+R^3 with unit quaternions): the landmark-vertex Jacobian in the transformed frame is J R_T^T (R_T = the code's own jacobian_self_oplus_point_wrt_point T, proved orthogonal), error/chi2/pose-vertex Jacobian unchanged; system_conjugate: H' = P H P^T, b' = P b entrywise on Model.system for any fixed set (P = identity on pose blocks, R_T on landmark blocks, P P^T = 1); solution_transport: dx solves (H,-b) iff P dx solves (H',-b'), uniqueness transported; step_frame_mixed(_exact), trajectory_frame_mixed (any number of iterations) and optimize_frame_mixed (the WHOLE call: same report and flags, transformed returned state) under 'the solver is exact and every visited system of the original run has at most one solution'. World-frame R^n edges between two landmark vertices are excluded with a proved counterexample (they are translation- but not rotation-invariant: the property's own 'a translation for R^n graphs').",
-        level_note="For graphs with landmark *vertices* in SE(2)/SE(3) worlds the assembled system is conjugated by an orthogonal block matrix; the end-to-end statement there carries a solver hypothesis (exact + unique solvability of the visited systems); for all-pose graphs and R^n graphs it holds for ANY solver.",
+        level_note="For graphs with landmark *vertices* in SE(2)/SE(3) worlds the assembled system is conjugated by an orthogonal block matrix; the end-to-end statement there carries a solver hypothesis (exact + unique solvability of the visited systems); for all-pose graphs and R^n graphs it holds for ANY solver. Regenerated tie: the decision expressions / statement skeleton of graph.py and base_edge.py are re-translated every run (tools/translate/py2lean_graph.py -> Generated/GraphPy.lean) and Props/Tie/GraphPy.lean proves that the hand models use exactly them.",
     ),
     "C08": dict(
         modules=["GraphSlam.Props.C08"],
@@ -242,7 +242,7 @@ PROPS = {
         level_text="Proved on the typed-graph model of a whole optimize() call (Props/E2E/Relabel.lean, VertexPerm*.lean): id relabelling by any injective map leaves the id->position lookup (last duplicate wins), the edge binding, the constructor and hence the whole run literally unchanged (counterexample for non-injective maps); vertex-list permutation (edges re-bound, flags permuted alike): chi2 unchanged, the dense H and b correspond entry by entry under the re-indexing of gradient indices, dx solves one system iff the re-indexed dx solves the other, the updated states correspond, and - for an exact solver and uniquely solvable visited systems - the trajectories and the WHOLE CALL agree (same report, corresponding returned states: optimizeSolve_vertexPerm; optimizeRun_vertexPerm for recorded increments with no solver hypothesis); fix_first_pose=True with the first vertex moved is excluded with a proved counterexample (it fixes a different vertex). Also proved: edge-list permutation leaves the accumulated H-, b-dictionaries and chi2 unchanged; theta+2*pi*k constructs the same SE(2) pose; H/b contributions are linear in Omega (split and scale), scaling leaves the solution set of the assembled system unchanged and scales chi2; "
         "landmark errors are invariant under negating the pose or offset quaternion; odometry errors keep the translational part and negate the rotational part, so chi2 is unchanged for information without cross terms. "
         "PARTIAL: with cross terms the clause is false of the current code (proved counterexample, recorded known finding).",
-        level_note="Known finding printed on every run; any other dependence on representation is reported as a violation.",
+        level_note="Known finding printed on every run; any other dependence on representation is reported as a violation. Regenerated tie: the decision expressions / statement skeleton of graph.py and base_edge.py are re-translated every run (tools/translate/py2lean_graph.py -> Generated/GraphPy.lean) and Props/Tie/GraphPy.lean proves that the hand models use exactly them.",
     ),
     "C09": dict(
         modules=["GraphSlam.Props.C09"],
@@ -332,7 +332,7 @@ PROPS = {
         "has |a-b| < tol*max(|a|,tol), |.| = Euclidean/Frobenius norm, proved equal to Mathlib's EuclideanSpace norm), refl, small_pert (incl. |a-b|<tol^2), large_pert (incl. one component off by the threshold, |a-b| >= tol(|a|+tol)), "
         "discrete_diff_false (class, ids count/value/order, information shape, estimate class/shape, offset class, offset id, pose class, list lengths, any position of a list), symm_outside_band; "
         "plus two theorems that ill-formed objects do raise (None offset: AttributeError; None estimate: TypeError).",
-        level_note="Trusted: Lean kernel, Mathlib reals/sqrt, the hand model (tied every run by 0.34M/2.4M exact outcome comparisons), harness abstraction functions. NaN/inf data are outside the theorems (a NaN information matrix compares equal to anything: noted).",
+        level_note="Trusted: Lean kernel, Mathlib reals/sqrt, the hand model (tied every run by 0.34M/2.4M exact outcome comparisons), harness abstraction functions. NaN/inf data are outside the theorems (a NaN information matrix compares equal to anything: noted). Regenerated tie: the guard sequences of equals / is_valid are re-translated every run (tools/translate/py2lean_cmp.py -> Generated/CmpPy.lean) and Props/Tie/CmpPy.lean proves model function = run facts <generated sequence> for every method.",
     ),
     "C18": dict(
         modules=["GraphSlam.Props.C18", "GraphSlam.Props.Tie.CmpPySpec"],
@@ -355,7 +355,7 @@ PROPS = {
         level_text="20 theorems for all list lengths: bind_by_id / bind_by_id_unique / bind_perm_invariant (unique ids: position k is bound to the vertex with id vertex_ids[k], independent of the order of the vertex list), bind_last_wins (duplicate ids), "
         "unknown_id_raises, bind_raises_iff, valid_iff_welltyped_odometry/_landmark (is_valid() <-> the docstring rule), constructor_keyError_iff, constructor_assertionError_iff, constructor_accepts_iff, constructor_raises_iff, constructor_error_classes, "
         "constructor_binds_by_id, gradient_index_layout (prefix sums of compact dimensionalities).",
-        level_note="Trusted: Lean kernel, the hand model (tied every run by 0.11M/0.63M exact comparisons incl. object identity), harness abstraction. Under `python -O` the assert is stripped and ill-typed edges are accepted (not modelled).",
+        level_note="Trusted: Lean kernel, the hand model (tied every run by 0.11M/0.63M exact comparisons incl. object identity), harness abstraction. Under `python -O` the assert is stripped and ill-typed edges are accepted (not modelled). Regenerated tie: the guard sequences of equals / is_valid are re-translated every run (tools/translate/py2lean_cmp.py -> Generated/CmpPy.lean) and Props/Tie/CmpPy.lean proves model function = run facts <generated sequence> for every method.",
     ),
     "C13": dict(
         modules=["GraphSlam.Props.C13", "GraphSlam.Props.Tie.G2OPy", "GraphSlam.Props.Tie.G2OPyExamples"],
@@ -390,7 +390,7 @@ PROPS = {
         "canon_idempotent, expressible_canon, second_cycle; refuses_* (each inexpressible kind gives the modelled exception class: NotImplementedError for unknown poses, R-type odometry, "
         "landmark edges other than SE2->R2 / SE3->R3, SE2 landmark with non-identity offset; ValueError before the file is opened for unregistered SE3 offsets) and refuses_inexpressible "
         "(if text is written at all, every element has a writable shape). Known finding (stays): chi2 changes for SE3 odometry with w<0 and cross terms (quat-sign:odometry:cross-terms).",
-        level_note="Full at token/object level under the fmt/parse assumption. Trusted: Lean kernel, harness + driver (exact comparison), CPython's float/str. Not covered: float32/int information arrays, "
+        level_note="Full at token/object level under the fmt/parse assumption. Trusted: Lean kernel, harness + driver (exact comparison), CPython's float/str. Not covered: float32/int information arrays,  Regenerated tie: tags, format strings, written field order, reader token positions, constructor slices, normalize(), triu / tril handling, branch and loop order of the .g2o reader and writer are re-translated every run (tools/translate/py2lean_g2o.py -> Generated/G2OPy.lean); Props/Tie/G2OPy.lean (49 theorems) proves that Model/G2O/* is the regenerated statement list run in order."
         "non-int ids, poses of wrong length (all outside the stated well-formedness hypothesis); asymmetric information (outside Expressible: only the upper triangle is written, silently); "
         "a partially written file is left behind when an element is refused mid-way (mirrored by toG2OTrace and compared by the harness, not judged).",
     ),
@@ -420,7 +420,7 @@ PROPS = {
         "(most recent preceding parameter wins); skip_independent (files of every length: inserting/removing blank or unrecognised lines anywhere changes no object, order or exception, "
         "and exactly one 'Line not supported' record per non-blank one, as a multiset) + skip_one; order_preserved (the loop succeeds iff a trace pairs every non-blank line with its single "
         "product, containers = those products in file order); loaders_agree (five wrappers = from_g2o + exactly one deprecation record).",
-        level_note="Full under the parse abstraction. Mirrors, does not judge: a tab directly after the tag makes the line unrecognised; VERTEX_XY/TRACKXYZ accept any number of coordinates; a single "
+        level_note="Full under the parse abstraction. Mirrors, does not judge: a tab directly after the tag makes the line unrecognised; VERTEX_XY/TRACKXYZ accept any number of coordinates; a single  Regenerated tie: tags, format strings, written field order, reader token positions, constructor slices, normalize(), triu / tril handling, branch and loop order of the .g2o reader and writer are re-translated every run (tools/translate/py2lean_g2o.py -> Generated/G2OPy.lean); Props/Tie/G2OPy.lean (49 theorems) proves that Model/G2O/* is the regenerated statement list run in order."
         "information token is broadcast to the whole matrix; exceptions leave the earlier warnings logged. Trusted: Lean kernel, harness + driver, CPython float()/int()/str.split.",
     ),
 }
